@@ -19,7 +19,7 @@ ENGINE = "E-hyp"
 TECHNIQUE = "property-based testing: hostile blocks in pending-operand contexts; per-instruction stack invariants (hook) + reference-interpreter value oracle; concurrent scheduled copies with small slices"
 RULE = ("cases = 1-3 statements `T pushBack [k, <ctx>]` where <ctx> is a nested array / binary chain whose operands include calls of hostile "
         "blocks (statement exitWith, mid-expression exitWith/breakOut-with-value/throw with a pending operand, loops with early exit, "
-        "value-leaving statements, nested observations), run unscheduled or as 2 concurrently spawned copies with slice 1..20; "
+        "value-leaving statements, nested observations; 1 case in 8: operators applied to nil inside array literals), run unscheduled or as 2 concurrently spawned copies with slice 1..20; "
         "non-trivial = a hostile block runs an early exit or a loop while >=1 operand of an enclosing expression is pending; "
         "distinct = SHA-1 of the case")
 LEVEL_TEXT = ("Exploration: every generated program must keep the observer's stack invariants at every instruction boundary (frame bases "
@@ -32,8 +32,33 @@ SIZES = {"quick": dict(budget_s=45, batch=100), "thorough": dict(budget_s=600, b
 FLOORS = {"nontrivial": 0.5}
 
 
+NIL_UNARY = ["typeOf", "count", "str", "typeName", "abs", "floor", "!", "-", "toUpper", "isNull"]
+NIL_BINARY = ["+", "-", "*", "select", "isEqualTo", "max", "pushBack", "in"]
+
+
+@st.composite
+def _nilcase(draw):
+    """operators applied to nil inside pending-operand contexts: each application yields nil, the enclosing array keeps its other operands"""
+    items = []
+    for _ in range(draw(st.integers(2, 6))):
+        c = draw(st.sampled_from(["n", "n", "un", "bin_r", "bin_l", "callun"]))
+        if c == "n":
+            items.append(["n", draw(st.integers(0, 9))])
+        elif c == "un":
+            items.append(["un", draw(st.sampled_from(NIL_UNARY))])
+        elif c == "callun":
+            items.append(["callun", draw(st.sampled_from(NIL_UNARY))])
+        else:
+            items.append([c, draw(st.sampled_from(NIL_BINARY)), draw(st.integers(0, 9))])
+    if not any(i[0] != "n" for i in items):
+        items.append(["un", draw(st.sampled_from(NIL_UNARY))])
+    return dict(kind="nilops", items=items, nested=draw(st.booleans()))
+
+
 @st.composite
 def _cases(draw, max_depth=3):
+    if draw(st.integers(0, 7)) == 0:
+        return draw(_nilcase())
     counter = {"k": 0, "s": 0}
 
     def nk():
@@ -175,7 +200,43 @@ def _hostility(prog):
     return labs
 
 
+def _check_nil(case, env):
+    parts, exp = [], []
+    for it in case["items"]:
+        if it[0] == "n":
+            parts.append(str(it[1])); exp.append(float(it[1]))
+        elif it[0] == "un":
+            parts.append("%s NILV" % it[1]); exp.append(None)
+        elif it[0] == "callun":
+            parts.append("call {%s NILV}" % it[1]); exp.append(None)
+        elif it[0] == "bin_r":
+            parts.append("(%d %s NILV)" % (it[2], it[1])); exp.append(None)
+        else:
+            parts.append("(NILV %s %d)" % (it[1], it[2])); exp.append(None)
+    inner = "[" + ", ".join(parts) + "]"
+    text = "private _a = [7, %s, 8]; T = _a;" % inner if case["nested"] else "T = %s;" % inner
+    want = [7.0, exp, 8.0] if case["nested"] else exp
+    r = _vm(env, 150)
+    r.cmd(dict(op="clearvars", vm=0))
+    r.cmd(dict(op="observe", enabled=True, check_stack=True, record=False))
+    rep = r.run(text, vm=0, getvars=["T"], getvars_struct=True)
+    errs = [l for l in rep.get("logs", []) if l["l"] <= 1]
+    sv = rep.get("obs", {}).get("stack_violations", [])
+    v = None
+    if sv:
+        v = viol("stack-invariant|nil-operand", "operand stack invariant broken: %s\nprogram: %s" % (sv[:3], text))
+    elif rep.get("result") not in ("ok", "empty") or errs:
+        v = viol("nil-operand|error", "an operator applied to nil (undefined variable NILV) broke the enclosing expression\nprogram: %s\nlogs: %s" % (text, [l["m"][:100] for l in errs[:3]]))
+    else:
+        got = sqfprog.vm_value(rep["vars"]["T"]["value"]) if "T" in rep.get("vars", {}) else "<missing>"
+        if got != want:
+            v = viol("nil-operand|value", "operands of the enclosing array were lost or replaced\nprogram: %s\nexpected: %s\nvm: %s" % (text, json.dumps(want), json.dumps(got)))
+    return Result(nontrivial=True, labels=["kind_nilops", "nontrivial"], violation=v)
+
+
 def check(case, env):
+    if case.get("kind") == "nilops":
+        return _check_nil(case, env)
     prog = case["prog"]
     labs = _hostility(prog)
     labs.add("mode_" + case["mode"])
